@@ -443,12 +443,15 @@ def render_fn(repo: Repo, fb: FnBlock, rules: Counter, info: dict, canary: bool 
     body = apply_rewrites(body, rules)
     # S3 / F1: explicit textual substitutions declared in the template (each must occur)
     for (a, b, optional) in fb.bodysub:
-        if a not in body:
+        # whitespace-insensitive literal match
+        pat = re.compile(r'\s*'.join(re.escape(tok) for tok in a.split()))
+        k = len(pat.findall(body))
+        if k == 0:
             if optional:
                 continue
             raise LostAnchor(f'body text `{a}` of fn {fb.name} not found')
-        rules['F1'] += body.count(a)
-        body = body.replace(a, b)
+        rules['F1'] += k
+        body = pat.sub(lambda _m: b, body)
     # hints & loop invariants: collect insertions on the rewritten body
     m = mask(body)
     ins = []  # (pos, text)
@@ -645,11 +648,11 @@ def build_unit(template_path: str, repo_root: str, verif_root: str, canary: bool
                     fb.attrs.append(s2[len('//@attr '):])
                 elif s2.startswith('//@bodysub? '):
                     flush()
-                    a, b = s2[len('//@bodysub? '):].split('=>')
+                    a, b = s2[len('//@bodysub? '):].split(' => ', 1) if ' => ' in s2 else (s2[len('//@bodysub? '):].rstrip('=>').rstrip(), '')
                     fb.bodysub.append((a.strip(), b.strip(), True))
                 elif s2.startswith('//@bodysub '):
                     flush()
-                    a, b = s2[len('//@bodysub '):].split('=>')
+                    a, b = s2[len('//@bodysub '):].split(' => ', 1) if ' => ' in s2 else (s2[len('//@bodysub '):].rstrip('=>').rstrip(), '')
                     fb.bodysub.append((a.strip(), b.strip(), False))
                 elif s2.startswith('//@sigsub '):
                     flush()
